@@ -96,6 +96,9 @@ func modelLine(c *Case) string {
 	switch c.Dir {
 	case "retain":
 		// one wrapper value of a declared function, invoked while / after another invocation of it
+		if c.Mode == "ifacerecv" {
+			return "C07 ifacerecv" // the method wrappers of a conversion to a host interface
+		}
 		if c.Mode == "recvbind" {
 			return "C07 recvbind" // the wrapper of a method: the receiver it is called with
 		}
